@@ -104,3 +104,13 @@ CORPUS += [
     Mut('c15-benign-logger-buffers-copied-rows', 'torchtree/core/logger.py', 'Logger.log', 'row.extend(obj.tensor.detach().cpu().tolist())',
         "row.extend(obj.tensor.detach().cpu().tolist())\nself._rows = getattr(self, '_rows', [])\nself._rows.append(list(row))", benign=True),
 ]
+CORPUS += [
+    Mut('c15-uphill-moves-accepted-without-the-hastings-term', 'torchtree/inference/mcmc/mcmc.py', '',
+        "                    acceptance_prob = min(torch.zeros_like(log_alpha), log_alpha).exp()\n                    accepted = (acceptance_prob > torch.rand(1)).item()\n",
+        "                    acceptance_prob = min(torch.zeros_like(log_alpha), log_alpha).exp()\n                    accepted = (acceptance_prob > torch.rand(1)).item()\n                    if log_joint_proposed >= log_joint:\n                        accepted = True\n",
+        mode='text', expect=[('C15.L', 'MCMC.run::no-acceptance-without-the-draw')]),
+    Mut('c15-benign-certain-moves-accepted-without-a-draw', 'torchtree/inference/mcmc/mcmc.py', '',
+        "                    acceptance_prob = min(torch.zeros_like(log_alpha), log_alpha).exp()\n                    accepted = (acceptance_prob > torch.rand(1)).item()\n",
+        "                    acceptance_prob = min(torch.zeros_like(log_alpha), log_alpha).exp()\n                    accepted = (acceptance_prob > torch.rand(1)).item()\n                    if log_alpha >= 0.0:\n                        accepted = True\n",
+        mode='text', benign=True),
+]
